@@ -60,7 +60,7 @@ PROPS = {
     },
     "C17": {
         "level": "other",
-        "explanation": "Narrow claim on the hash-table representation of mappings and sets, decided by Verus contracts on real text (the structs, KeyLocation and the bucket aliases are the real definitions). (1) Lookup: XMapping::locate and XSet::locate answer Vacant exactly when the table has no bucket for the key's hash, and otherwise the outcome of scanning THAT bucket in order with the user's equality: Found at the first index whose key is equal, the error value of the first comparison that fails before that, Missing when none is equal; an error value or an out-of-range answer of the hash function is the result as an error value. (2) Insertion / overwrite: XMapping::try_put_located stores the callback's value at a valid location -- Found: the pair keeps its key and gets the value, nothing else changes, len unchanged; Missing: (k, v) appended to the bucket, len + 1; Vacant: a new bucket, len + 1; an error value or violation of the callback is handed on and NOTHING changes -- and put_located / put / try_put do the same through locate; XMapping::get reads the value at a location. (3) Bulk update: XSet::with_update and XMapping::with_update (whole bodies, loop invariant) return a NEW collection that satisfies the representation invariant (len is the number of stored entries, every key lies in the bucket of its own hash), retains every key of the receiver in place, holds every item afterwards, adds a key only when equality answered false for every key stored before it in its bucket (no duplicates), and -- for mappings -- stores for every key the receiver's value or the value of an item that hit it, the most recent item being what a lookup of its key finds (last one wins). (4) Removal: the natives pop / discard of mappings and remove / discard of sets (from the emptiness test to the end of the closure, with their iterator towers over the table) answer, when locate finds the key at (h, i), a NEW collection whose table is the receiver's with bucket h replaced by that bucket without its i-th entry (every other bucket and the order inside bucket h unchanged), len one less; a key that cannot be found gives an error value (pop / remove) resp. the receiver itself (discard), a key that can be found never does; the pre-flight arithmetic cannot overflow. (5) Natives: `lookup` answers some(the value stored at the location locate finds) / none(), `get` with a default answers the stored value without evaluating the default, or what the default evaluates to; `set_default` answers the receiver itself when the key is found (the default is not evaluated) and otherwise a NEW mapping with the evaluated default stored at the location; `update_from_keys` (bulk update with callbacks, on which counting is written) answers the LEFT FOLD over the keys, in order, of the single-key update -- the key is located in the table built so far; found: on_occupied(key, stored value) replaces the value; absent: (key, on_empty(key)) is appended / opens a bucket; nothing else changes -- and a failing callback ends it with that failure. NOT decided: the natives set / update around with_update (argument evaluation, downcasts; they hand one item / the generator's items to with_update), the set algebra and the helpers written in the xray language, consistency requirements on the user's hash / eq (the contracts hold for ANY hash / eq that answer an Int / a Bool).",
+        "explanation": "Narrow claim on the hash-table representation of mappings and sets, decided by Verus contracts on real text (the structs, KeyLocation and the bucket aliases are the real definitions). (1) Lookup: XMapping::locate and XSet::locate answer Vacant exactly when the table has no bucket for the key's hash, and otherwise the outcome of scanning THAT bucket in order with the user's equality: Found at the first index whose key is equal, the error value of the first comparison that fails before that, Missing when none is equal; an error value or an out-of-range answer of the hash function is the result as an error value. (2) Insertion / overwrite: XMapping::try_put_located stores the callback's value at a valid location -- Found: the pair keeps its key and gets the value, nothing else changes, len unchanged; Missing: (k, v) appended to the bucket, len + 1; Vacant: a new bucket, len + 1; an error value or violation of the callback is handed on and NOTHING changes -- and put_located / put / try_put do the same through locate; XMapping::get reads the value at a location. (3) Bulk update: XSet::with_update and XMapping::with_update (whole bodies, loop invariant) return a NEW collection that satisfies the representation invariant (len is the number of stored entries, every key lies in the bucket of its own hash), retains every key of the receiver in place, holds every item afterwards, adds a key only when equality answered false for every key stored before it in its bucket (no duplicates), and -- for mappings -- stores for every key the receiver's value or the value of an item that hit it, the most recent item being what a lookup of its key finds (last one wins). (4) Removal: the natives pop / discard of mappings and remove / discard of sets (from the emptiness test to the end of the closure, with their iterator towers over the table) answer, when locate finds the key at (h, i), a NEW collection whose table is the receiver's with bucket h replaced by that bucket without its i-th entry (every other bucket and the order inside bucket h unchanged), len one less; a key that cannot be found gives an error value (pop / remove) resp. the receiver itself (discard), a key that can be found never does; the pre-flight arithmetic cannot overflow. (5) Natives: `lookup` answers some(the value stored at the location locate finds) / none(), `get` with a default answers the stored value without evaluating the default, or what the default evaluates to; `contains` of sets answers whether locate finds the element; `set_default` answers the receiver itself when the key is found (the default is not evaluated) and otherwise a NEW mapping with the evaluated default stored at the location; `update_from_keys` (bulk update with callbacks, on which counting is written) answers the LEFT FOLD over the keys, in order, of the single-key update -- the key is located in the table built so far; found: on_occupied(key, stored value) replaces the value; absent: (key, on_empty(key)) is appended / opens a bucket; nothing else changes -- and a failing callback ends it with that failure. NOT decided: the natives set / update around with_update (argument evaluation, downcasts; they hand one item / the generator's items to with_update), the set algebra and the helpers written in the xray language, consistency requirements on the user's hash / eq (the contracts hold for ANY hash / eq that answer an Int / a Bool).",
         "units": [
             {"kind": "verus", "unit": "locate"},
             {"kind": "verus", "unit": "slocate"},
@@ -69,12 +69,13 @@ PROPS = {
             {"kind": "verus", "unit": "mapdel"},
             {"kind": "verus", "unit": "setdel"},
             {"kind": "verus", "unit": "maplookup"},
+            {"kind": "verus", "unit": "setlookup"},
             {"kind": "verus", "unit": "tabhash"},
             {"kind": "verus", "unit": "mapeq"},
         ],
         "unreached": [
             "the remaining bulk operations that rebuild the table (clear, update_from_keys, dyn_new / to_generator towers)",
-            "the native closures around with_update (set, update, add: argument evaluation, downcasts, pre-flight checks; lookup / get / set_default / update_from_keys are under contract from the statements after the downcasts on), set contains / len; XMapping::new callers; iteration order of `iter`",
+            "the native closures around with_update (set, update, add: argument evaluation, downcasts, pre-flight checks; lookup / get / set_default / update_from_keys are under contract from the statements after the downcasts on), set len; XMapping::new callers; iteration order of `iter`",
             "set algebra and mapping helpers written in the xray language (include.rs); derived eq / hash of mappings and sets",
             "that the representation invariant holds of every collection a program can build (it is a precondition of with_update; `mapping()` / `set()` start from the empty table, where it holds)",
         ],
